@@ -64,12 +64,32 @@ func ChildMain(args []string) {
 	}
 	hx.InitIO()
 	run := evid.NewPartialRun(prop, tier, seed)
-	fn(run, batch, nb, &Journal{f: jf})
-	b, _ := json.Marshal(run.ToPartial())
-	if err := os.WriteFile(out, b, 0o644); err != nil {
-		fmt.Fprintln(os.Stderr, err)
-		os.Exit(2)
+	run.SaturateAt = 6
+	// flush what has been found so far every second: if this process dies or is
+	// stopped by the parent's watchdog, the violations already witnessed survive
+	flush := func(final bool) {
+		p := run.ToPartial()
+		p.Complete = final
+		b, _ := json.Marshal(p)
+		tmp := out + ".tmp"
+		if err := os.WriteFile(tmp, b, 0o644); err == nil {
+			_ = os.Rename(tmp, out)
+		}
 	}
+	stopFlush := make(chan struct{})
+	go func() {
+		for {
+			select {
+			case <-stopFlush:
+				return
+			case <-time.After(time.Second):
+				flush(false)
+			}
+		}
+	}()
+	fn(run, batch, nb, &Journal{f: jf})
+	close(stopFlush)
+	flush(true)
 	os.Exit(0)
 }
 
@@ -136,6 +156,7 @@ func RunChildren(run *evid.Run, o ChildOpts) {
 			cmd.Stdout = ef
 			cmd.Stderr = ef
 			cmd.Env = append(os.Environ(), "GOTRACEBACK=all")
+			cmd.SysProcAttr = &syscall.SysProcAttr{Pdeathsig: syscall.SIGKILL}
 			if o.Race {
 				cmd.Env = append(cmd.Env, "GORACE=halt_on_error=0 exitcode=0 history_size=3 log_path="+racep)
 			}
@@ -194,16 +215,22 @@ func RunChildren(run *evid.Run, o ChildOpts) {
 					}
 				}
 			}
-			if data, err := os.ReadFile(out); err == nil && werr == nil {
+			if data, err := os.ReadFile(out); err == nil {
 				var p evid.Partial
 				if json.Unmarshal(data, &p) == nil {
 					run.Merge(&p)
-					if o.OnPartial != nil {
-						rmu.Lock()
-						o.OnPartial(b, &p)
-						rmu.Unlock()
+					if p.Complete && werr == nil {
+						if o.OnPartial != nil {
+							rmu.Lock()
+							o.OnPartial(b, &p)
+							rmu.Unlock()
+						}
+						return
 					}
-					return
+					if len(p.Violations) > 0 && kind == "watchdog" {
+						// stopped by the watchdog, but it had already witnessed violations
+						return
+					}
 				}
 			}
 			// the child died or hung
